@@ -1,0 +1,30 @@
+//go:build verif
+
+package consensus
+
+// Add-only wrapper for the out-of-tree verification harness (/verif, family `node`, MC_Ticker.tla): the REAL
+// timeout ticker behind exported types.
+
+import "time"
+
+type VerifRealTicker struct{ t TimeoutTicker }
+
+func NewVerifRealTicker() *VerifRealTicker {
+	t := NewTimeoutTicker()
+	_ = t.Start()
+	return &VerifRealTicker{t}
+}
+func (v *VerifRealTicker) Schedule(x VerifTimeout) {
+	v.t.ScheduleTimeout(timeoutInfo{x.Duration, x.Height, x.Round, x.Step})
+}
+
+// TryTock waits up to d for the ticker to fire.
+func (v *VerifRealTicker) TryTock(d time.Duration) (VerifTimeout, bool) {
+	select {
+	case ti := <-v.t.Chan():
+		return VerifTimeout{ti.Duration, ti.Height, ti.Round, ti.Step}, true
+	case <-time.After(d):
+		return VerifTimeout{}, false
+	}
+}
+func (v *VerifRealTicker) Stop() { _ = v.t.Stop() }
